@@ -2502,6 +2502,9 @@ class UserActions(object):
     of the view section, setting their colRefs to similar columns in a different summary table.
     """
     section = self._docmodel.view_sections.table.get_record(section_ref)
+    if section.isRaw:
+      # The raw section belongs to its summary table; moving it would leave that table without one.
+      raise ValueError("Cannot modify raw view section")
     source_table = section.tableRef.summarySourceTable
     groupby_cols = self._fetch_table_col_recs(source_table.id, groupby_colrefs)
     self._summary.update_summary_section(section, source_table, groupby_cols)
